@@ -314,8 +314,8 @@ Proof.
   eapply Forall_impl; [|apply read_n_le]. intros a Ha. cbn beta in Ha. unfold len. lia.
 Qed.
 
-(* file version 1: every row of at most 65022 bytes fits the 16-bit count *)
-Lemma v1_safe_row : forall rs, rs <= 65022 -> 128 * rs + 126 < 127 * cmax 1.
+(* file version 1: every row of at most 65023 bytes fits the 16-bit count (65024 ramp bytes do not) *)
+Lemma v1_safe_row : forall rs, rs <= 65023 -> 128 * rs + 126 < 127 * cmax 1.
 Proof. intros. change (cmax 1) with 65536. lia. Qed.
 Lemma v2_safe_row : forall rs, rs <= 4261412863 -> 128 * rs + 126 < 127 * cmax 2.
 Proof. intros. change (cmax 2) with 4294967296. lia. Qed.
